@@ -153,6 +153,42 @@ func runC07(x *simkit.Exec) {
 	}
 	plans := drawPlans(x, nclients, npool, 3)
 	faults := x.Bool("faults", 1, 2)
+	// A third of the runs is a directed cache history: the label APIs are first asked over a narrow range in
+	// which a series matching the selectors has no chunk, then Series and the label APIs over everything, on
+	// one client, with an index cache and lazily expanded postings. What the narrow calls leave in the caches
+	// is keyed by the selectors alone (the label calls add their own `label != ""` matcher to the key).
+	var narrowFirst *query
+	if x.Bool("narrowLabelCallsFirst", 1, 3) {
+		if ms, b, sp := lazyFriendlyMatchers(x, ds, "nlf"); ms != nil {
+			total := int64(ds.NumSlots) * ds.SlotLen
+			wide := query{Matchers: ms, MinT: 0, MaxT: total, SkipChunks: x.Bool("nlf.skipchunks", 1, 2)}
+			narrow := wide
+			narrow.MinT, narrow.MaxT = b.MinT, b.MinT+ds.SlotLen/2
+			first, last := sp.Chunks[0].mint(), sp.Chunks[0].maxt()
+			for _, c := range sp.Chunks {
+				first, last = min(first, c.mint()), max(last, c.maxt())
+			}
+			switch {
+			case first > b.MinT:
+				narrow.MinT, narrow.MaxT = b.MinT, first-1
+			case last < b.MaxT-1:
+				narrow.MinT, narrow.MaxT = last+1, b.MaxT-1
+			}
+			narrowFirst = &narrow
+			pool = []query{wide}
+			npool = 1
+			plans = [][]int{{0}}
+			if x.Bool("nlf.again", 1, 2) {
+				plans[0] = append(plans[0], 0)
+			}
+			nclients = 1
+			cfg.LazyPostings = true
+			cfg.EstSeries = []uint64{1, 8, 16}[x.Draw("nlf.estseries", 3)]
+			if cfg.IndexCache == 0 {
+				cfg.IndexCache = 2
+			}
+		}
+	}
 	f := prepare(x, ds)
 	if f == nil {
 		return
@@ -201,6 +237,21 @@ func runC07(x *simkit.Exec) {
 				return
 			}
 			q := pool[qi]
+			if narrowFirst != nil {
+				n := *narrowFirst
+				var names []string
+				for _, m := range n.Matchers {
+					names = append(names, m.Name)
+				}
+				names = append(names, "__name__")
+				for _, name := range names {
+					_, err := g.store.LabelValues(ctx, &storepb.LabelValuesRequest{Label: name, Start: n.MinT, End: n.MaxT, Matchers: toPBMatchers(n.Matchers)})
+					s.Note("%s narrow LabelValues(%s) err=%v", actor, name, err != nil)
+				}
+				_, err := g.store.LabelNames(ctx, &storepb.LabelNamesRequest{Start: n.MinT, End: n.MaxT, Matchers: toPBMatchers(n.Matchers)})
+				s.Note("%s narrow LabelNames err=%v", actor, err != nil)
+				x.Probe("c07.narrow_label_calls_first")
+			}
 			resp, _, faulted := g.series(ctx, q, nil)
 			s.Note("%s q%d -> %d series err=%v", actor, qi, len(resp.Series), resp.Err != nil)
 			if resp.Err != nil || len(resp.Warnings) > 0 {
